@@ -356,9 +356,7 @@ fn format(opt: opt::Opt) -> Result<i32> {
                         };
                     }
                     FormatResult::Diff(diff) => {
-                        if EXIT_CODE.load(Ordering::SeqCst) != 2 {
-                            EXIT_CODE.store(1, Ordering::SeqCst);
-                        }
+                        EXIT_CODE.fetch_max(1, Ordering::SeqCst);
 
                         UNFORMATTED_FILE_COUNT.fetch_add(1, Ordering::SeqCst);
 
@@ -573,7 +571,7 @@ fn main() {
         .format(move |buf, record| {
             // Side effect: set exit code
             if let Level::Error = record.level() {
-                EXIT_CODE.store(2, Ordering::SeqCst);
+                EXIT_CODE.fetch_max(2, Ordering::SeqCst);
             }
 
             let tag = match record.level() {
